@@ -887,6 +887,92 @@ pub proof fn lemma_equality_is_symmetric<D: GarnishData>(cells: Map<D::Size, Cel
     lemma_weq_symmetric::<D>(cells, w, fuel);
 }
 
+/// the value types C11 quantifies over (ranges, slices, partials and custom values are not among them: `x == x` is false for a partial)
+pub open spec fn c11_type(t: GarnishDataType) -> bool {
+    t == GarnishDataType::Unit || t == GarnishDataType::True || t == GarnishDataType::False || t == GarnishDataType::Number
+    || t == GarnishDataType::Char || t == GarnishDataType::Byte || t == GarnishDataType::Symbol || t == GarnishDataType::SymbolList
+    || t == GarnishDataType::CharList || t == GarnishDataType::ByteList || t == GarnishDataType::Pair || t == GarnishDataType::List
+    || t == GarnishDataType::Concatenation
+}
+
+/// every pending pair of the queue compares a value with itself
+pub open spec fn diag<T>(w: Seq<T>) -> bool {
+    w.len() % 2 == 0 && forall|i: int| 0 <= i < w.len() && i % 2 == 0 ==> #[trigger] w[i] == w[i + 1]
+}
+
+pub proof fn lemma_zipn_diag<T>(a: Seq<T>, n: nat)
+    requires n <= a.len()
+    ensures diag(zipn(a, a, n))
+    decreases n
+{
+    lemma_zipn_len(a, a, n);
+    if n > 0 {
+        lemma_zipn_diag(a, (n - 1) as nat);
+        lemma_zipn_len(a, a, (n - 1) as nat);
+        let z = zipn(a, a, n); let z0 = zipn(a, a, (n - 1) as nat);
+        assert forall|i: int| 0 <= i < z.len() && i % 2 == 0 implies #[trigger] z[i] == z[i + 1] by {
+            if i < z0.len() { assert(z[i] == z0[i]); assert(z[i + 1] == z0[i + 1]); }
+        }
+    }
+}
+
+/// a value equals itself: comparing `x` with `x` never answers false, provided numeric equality is reflexive on the numbers
+/// involved (it is not for NaN) - the verdict is true whenever it is determined
+//@@LEMMA C11
+pub proof fn lemma_weq_reflexive<D: GarnishData>(cells: Map<D::Size, Cell<D::Size, D::Number, D::Symbol, D::Char, D::Byte>>, w: Seq<D::Size>, fuel: nat)
+    requires diag(w), forall|n: D::Number| #![trigger D::num_eq(n, n)] D::num_eq(n, n), forall|a: D::Size| c11_type(#[trigger] cells[a].ty),
+    ensures weq::<D>(cells, w, fuel) != Some(false)
+    decreases fuel
+{
+    D::axioms();
+    if w.len() >= 2 && fuel > 0 {
+        let r = w[w.len() - 1]; let l = w[w.len() - 2];
+        assert(w[w.len() - 2] == w[w.len() - 2 + 1]);
+        assert(l == r);
+        let c = cells[l];
+        let base = w.take(w.len() - 2);
+        if c.ty != GarnishDataType::Slice {
+            // one step on (x, x): true, and what it queues is again pairs of a value with itself
+            let nxt = deq::<D>(cells, l, r).1;
+            if is_seq_ty(c.ty) {
+                let a = flat_items::<D>(cells, l);
+                lemma_zipn_diag(a, a.len());
+                lemma_zipn_len(a, a, a.len());
+            } else if c.ty == GarnishDataType::Pair {
+                assert(diag(seq![c.a, c.a, c.b, c.b]));
+            } else {
+                assert(diag(Seq::<D::Size>::empty()));
+                assert(c11_type(c.ty));
+                assert(seq_eq(c.chars, c.chars));
+                assert(seq_eq(c.bytes, c.bytes));
+                assert(seq_eq(c.parts, c.parts)) by {
+                    assert forall|i: int| 0 <= i < c.parts.len() implies #[trigger] c.parts[i].eq_spec(&c.parts[i]) by {
+                        match c.parts[i] { SymbolListPart::Symbol(x) => {}, SymbolListPart::Number(x) => { assert(D::num_eq(x, x)); } }
+                    }
+                }
+            }
+            assert(deq::<D>(cells, l, r).0);
+            assert(diag(nxt));
+            let q = base + nxt;
+            assert forall|i: int| 0 <= i < q.len() && i % 2 == 0 implies #[trigger] q[i] == q[i + 1] by {
+                if i < base.len() { assert(q[i] == w[i]); assert(q[i + 1] == w[i + 1]); }
+                else { assert(q[i] == nxt[i - base.len()]); assert(q[i + 1] == nxt[i - base.len() + 1]); }
+            }
+            lemma_weq_reflexive::<D>(cells, q, (fuel - 1) as nat);
+        }
+    }
+}
+
+/// `x == x` is never false (see lemma_weq_reflexive for the proviso on NaN)
+//@@LEMMA C11
+pub proof fn lemma_equality_is_reflexive<D: GarnishData>(cells: Map<D::Size, Cell<D::Size, D::Number, D::Symbol, D::Char, D::Byte>>, x: D::Size, fuel: nat)
+    requires forall|n: D::Number| #![trigger D::num_eq(n, n)] D::num_eq(n, n), forall|a: D::Size| c11_type(#[trigger] cells[a].ty),
+    ensures weq::<D>(cells, seq![x, x], fuel) != Some(false)
+{
+    assert(diag(seq![x, x]));
+    lemma_weq_reflexive::<D>(cells, seq![x, x], fuel);
+}
+
 pub trait GarnishData: Sized {
     type Error: std::error::Error + 'static;
     type Symbol: Default + Display + Debug + PartialOrd + TypeConstants + Clone;
